@@ -675,18 +675,22 @@ Inv_C06a == \A t \in Tasks : late[t] =>
               /\ ~(pc[t] = "g_exit" /\ res[t] = "ok")
               /\ (pc[t] = "idle" => res[t] \in {"closed", "cancelled", "no_runtime", "none"})
 Inv_C06b == closed => (idle = <<>> /\ maxSize = 0)
-Act_C06c == [][closed => closed']_vars
+Step_C06c == closed => closed'
+Act_C06c == [][Step_C06c]_vars
 
 \* --- C07 -------------------------------------------------------------------
 \* a resize() that returns leaves max_size = n and at most n idle objects
-Act_C07a == [][\A t \in Tasks : (pc[t] \in {"rs_lock", "rs_forget", "rs_grow"} /\ pc'[t] = "idle" /\ ~closed)
-                    => (maxSize' = arg[t] /\ Len(idle') <= maxSize')]_vars
+Step_C07a == \A t \in Tasks : (pc[t] \in {"rs_lock", "rs_forget", "rs_grow"} /\ pc'[t] = "idle" /\ ~closed)
+                    => (maxSize' = arg[t] /\ Len(idle') <= maxSize')
+Act_C07a == [][Step_C07a]_vars
 \* nothing is admitted above the limit in force
-Act_C07b == [][Live' > Live => Live' <= maxSize']_vars
+Step_C07b == Live' > Live => Live' <= maxSize'
+Act_C07b == [][Step_C07b]_vars
 Inv_C07c == (Quiescent /\ Out = {} /\ ~Resizing /\ ~poolGone) => Len(idle) <= maxSize
 
 \* --- C08 -------------------------------------------------------------------
-Act_C08b == [][\A t \in Tasks : (pc[t] = "g_pop" /\ pc'[t] \in {"create", "c_unres"}) => idle = <<>>]_vars
+Step_C08b == \A t \in Tasks : (pc[t] = "g_pop" /\ pc'[t] \in {"create", "c_unres"}) => idle = <<>>
+Act_C08b == [][Step_C08b]_vars
 
 \* --- C11 -------------------------------------------------------------------
 Inv_C11a == (Quiescent /\ \A t \in Tasks : ~susp[t]) /\ lock = NoTask /\ ~poolGone =>
